@@ -89,11 +89,35 @@ def work(chunk_id, payload):
         oneway = r == c == 3 and rng.random() < 0.5
         if oneway:
             sc.pre_sparse = int(rng.integers(1, 3))
-        sc.sufficient_recipe(extras=int(rng.integers(0, 3)))
-        sc.choose_entries()
+        kit = (not oneway) and ctype in physics.LEAKAGE_OUTSIDE and \
+            r == c == 2 and rng.random() < 0.5
+        if kit:
+            # characterised kit: every standard spans both ports and is
+            # entered as a full S matrix with explicit zeros through
+            # add_mapped_matrix; the reflect sets are the only leakage samples
+            ports = [1, 2]
+            for _ in range(int(rng.integers(2, 4))):
+                sc.add_matrix(ports)
+            for _ in range(int(rng.integers(3, 6))):
+                sc.add_reflect(ports, [sc.rparam(1.0, False) for _q in ports])
+            for st in sc.stds:
+                st.form = sc.form
+                st.entry = "mapped_matrix"
+                st.full_rows = st.full_cols = True
+                st.use_null_map = bool(rng.random() < 0.5)
+            bump("kit_pools")
+        else:
+            sc.sufficient_recipe(extras=int(rng.integers(0, 3)))
+            sc.choose_entries()
         if not sc.well_determined(1e4)[0]:
             bump("pools_not_determining_skipped")
             continue
+        # parameters of other users of the same vnacal_t, created before and
+        # between the standards: the calibration's handles are sparse
+        bursts = None
+        if kit or rng.random() < 0.35:
+            bursts = [int(x) for x in rng.integers(0, 14, 32)]
+            bursts[0] = int(rng.integers(0, 45))
         order = list(rng.permutation(len(sc.stds)))
         # optional early insertion of the full-matrix leakage standards keeps
         # orders diverse; nothing else is arranged
@@ -108,6 +132,10 @@ def work(chunk_id, payload):
         nfail = 0
         for n, i in enumerate(order):
             st = sc.stds[i]
+            if bursts:
+                for j in range(bursts[n % len(bursts)]):
+                    s.op("fz%d_%d=vnacal_make_scalar_parameter $vc %s" % (
+                        n, j, R.cx(0.01 * (n + 1) + 0.02j * (j + 1))))
             ln_add = sc.emit_std(s, st, n, uid=uid)
             prefix.append(st)
             cls, kappa = classify(sc, prefix)
@@ -242,7 +270,10 @@ def main():
              "(1x1..3x3, 1x2, 2x1) x m/ab; standards added in a random order "
              "with vnacal_new_solve after each addition; every prefix "
              "classified U/D/G by the independent identifiability test; "
-             "D prefixes also apply a random DUT; half of the 3x3 pools "
+             "D prefixes also apply a random DUT; a third of the pools with "
+             "bursts of foreign parameters in the same vnacal_t (sparse "
+             "handles), half of the 2x2 leakage-type pools characterised kits "
+             "(full S matrices with explicit zeros); half of the 3x3 pools "
              "contain one or two three-port standards with a non-reciprocal "
              "zero pattern (only the determined side is judged there); "
              "distinct = distinct (type, "
